@@ -99,6 +99,23 @@ impl<R: DynamicChannelRegion> DynamicChannelPlan<R> {
     }
 }
 
+#[cfg(lora_rs_verif)]
+impl<R: DynamicChannelRegion> DynamicChannelPlan<R> {
+    pub(crate) fn verif_snapshot(&self) -> crate::verif::VerifRegion {
+        let mut channels = [None; NUM_CHANNELS_DYNAMIC as usize];
+        for (o, c) in channels.iter_mut().zip(self.channels.iter()) {
+            *o = c.map(|c| crate::verif::VerifChannel {
+                frequency: c.frequency,
+                dr_range: c._datarates.raw_value(),
+                dl_frequency: c.dl_frequency,
+            });
+        }
+        let mut channel_mask = [0u8; 9];
+        channel_mask.copy_from_slice(self.channel_mask.as_ref());
+        crate::verif::VerifRegion { fixed: false, channel_mask, channels, join: None }
+    }
+}
+
 pub(crate) trait DynamicChannelRegion: ChannelRegion {
     const NUM_JOIN_CHANNELS: u8;
     fn init_channels(channels: &mut ChannelPlan);
